@@ -1,3 +1,5 @@
 import PyhfProofs.Lemmas.RealPrim
 import PyhfProofs.Lemmas.Piecewise
 import PyhfProofs.Lemmas.InterpReal
+import PyhfProofs.Lemmas.Lists
+import PyhfProofs.Properties.C03
